@@ -1306,10 +1306,10 @@ fn main() {
 
 	check.enumerate("exhaustive-boxes", small_cases(), true, small_oracle);
 	check.enumerate("exhaustive-pairs", pair_rows(3), true, pair_oracle);
-	check.phase("sampled-boxes", check.cases(150_000, 4_000_000), box_case_strategy, box_oracle);
-	check.phase("pyramids", check.cases(60_000, 1_500_000), pyr_case_strategy, pyr_oracle);
+	check.phase("sampled-boxes", check.cases(500_000, 15_000_000), box_case_strategy, box_oracle);
+	check.phase("pyramids", check.cases(200_000, 5_000_000), pyr_case_strategy, pyr_oracle);
 	check.enumerate("geo-special", geo_special_cases(), false, geo_oracle);
-	check.phase("geo", check.cases(60_000, 1_500_000), geo_raw_strategy, geo_oracle);
-	check.phase("geo-aligned", check.cases(40_000, 1_000_000), geo_aligned_strategy, geo_oracle);
+	check.phase("geo", check.cases(200_000, 5_000_000), geo_raw_strategy, geo_oracle);
+	check.phase("geo-aligned", check.cases(120_000, 3_000_000), geo_aligned_strategy, geo_oracle);
 	check.finish();
 }
